@@ -2,6 +2,7 @@
 from checks import gf256
 
 ID = 'C13'
+PROP_MODULES = ['QRV.Props.C13', 'QRV.Props.C13Unique']
 RULE = ('for every n in 2..68: random messages (lengths 0..220, with leading zeros, all-zero, single byte) written in random chunkings, plus basis '
         'messages v*x^j; New(n) for n in -3..72; thorough adds the complete basis enumeration (every v in 1..255, every j <= 254-n) inside the harness. '
         'Implementation compared with the Lean model (correspondence) and with an independent polynomial-division reference (the property); '
@@ -17,9 +18,9 @@ MANIFEST = {
     'technique': 'Lean 4 proof: LFSR invariant by induction over the message from kernel-evaluated generator facts for all 67 coders; translator-regenerated taps',
     'text': ('QRV/Props/C13.lean proves for every n in 2..68 and every message (unbounded length, any chunking): the coder\'s taps are the logs of the coefficients of '
              'g_n = prod (x - a^i) computed from the definition (kernel evaluation), the register invariant eval(state, a^i) = eval(message, a^i), hence message ++ parity '
-             'vanishes at a^0..a^(n-1); chunking independence, leading zeros, New range. The coders are tied to the source by the translator (template match of every '
+             'vanishes at a^0..a^(n-1); chunking independence, leading zeros, New range; and (C13Unique.lean, parity_unique) for every block of at most 255 bytes the parity is the ONLY n-byte tail with those n roots, from the minimum distance n+1 of the code (Mathlib Field instance, proof-only modules) - so the emitted bytes are exactly the stated remainder. The coders are tied to the source by the translator (template match of every '
              'generated function, constants extracted) on every run, and the model by differential runs.'),
-    'note': ('Trusted: Lean kernel; translator template matcher; Model/RS.lean step function (tied by correspondence); Sum\'s value receiver is a matched-template fact, '
+    'note': ('Trusted: Lean kernel; Mathlib polynomial algebra in proof-only modules (parity_unique only, through C14Complete); translator template matcher; Model/RS.lean step function (tied by correspondence); Sum\'s value receiver is a matched-template fact, '
              'its purity is additionally exercised by the harness (Sum mid-stream, Sum twice, Reset).'),
 }
 
